@@ -39,7 +39,7 @@ def case_strategy(min_m=1):
         'pexp': st.integers(-6, 6),
         'kdef': st.integers(1, 3),
         'zmode': st.sampled_from(['consistent', 'arbitrary', 'zero']),
-        'store': st.sampled_from(['c', 'c', 'fortran', 'views']),
+        'store': st.sampled_from(['c', 'c', 'fortran', 'views', 'int']),
         'xmode': st.sampled_from(['random', 'random', 'zero']),      # an exactly zero prior mean is what the feedback filter passes
         'sub': st.integers(0, 2 ** 31 - 1),
     })
@@ -118,6 +118,12 @@ def build(case):
     else:
         z = rng.randn(m) * 10.0 ** rng.uniform(-3, 3)
     st_ = case.get('store', 'c')
+    if st_ == 'int':              # integer-typed arguments wherever the values are whole numbers (selection H, counts as
+        z = np.round(z).astype(np.int64)      # observations, an all-zero prior mean): same values, different dtype
+        if np.array_equal(H, np.round(H)):
+            H = H.astype(np.int64)
+        if not x.any():
+            x = x.astype(np.int64)
     if st_ == 'fortran':          # same values, column-major storage
         P, H, R = np.asfortranarray(P), np.asfortranarray(H), np.asfortranarray(R)
     elif st_ == 'views':          # same values, non-contiguous views into larger buffers
